@@ -653,12 +653,19 @@ func (db *DB) tableRangeCompaction(level int, umin, umax []byte) error {
 }
 
 func (db *DB) tableAutoCompaction() {
+	if atomic.LoadInt32(&db.compReadOnly) != 0 {
+		return
+	}
 	if c := db.s.pickCompaction(); c != nil {
 		db.tableCompaction(c, false)
 	}
 }
 
 func (db *DB) tableNeedCompaction() bool {
+	if atomic.LoadInt32(&db.compReadOnly) != 0 {
+		// A read-only DB must not modify its files.
+		return false
+	}
 	v := db.s.version()
 	defer v.release()
 	return v.needCompaction()
